@@ -56,6 +56,11 @@ CLAIMED = {
             "Generated programs with marker statements are run uninstrumented (reference), under each of the 13 ProfileModes followed by gen_profile, under a counting statement hook (exactly one continued=false call per executed marker statement) and under the DAP adapter driven by a simulated client in lock-step with the evaluation thread: breakpoints on seeded subsets of marker lines incl. conditional / failing conditions and breakpoint-set changes at stops, requests at every stop (top_frame, stack_trace, scopes, variables, inspect_variable, evaluate incl. failing expressions), step Into/Over/Out, detach at a seeded stop, request after the evaluation ended (must return, not hang). Transcript, result and error text must equal the reference; the sequence of stops must equal the executed markers carrying a breakpoint; variables shown at a stop must equal what the marker then emits; under step-Into every executed marker is stopped at exactly once.",
             "Over/Out are only checked for non-interference. One recorded defect (module-level statements announced twice to hooks/debugger) is modelled and reported as KNOWN-FINDING; any other deviation is a violation.",
             "DESIGN.md §6 C18"),
+    "C19": ("exploration",
+            "deterministic simulation of an LSP client over the in-memory transport plus a simulated file system with I/O faults behind LspContext; ground truth of name resolution obtained by running the generated documents (tagged bindings)",
+            "The real server loop runs on its own thread over Connection::memory(); the simulated client opens 1-3 generated documents (nested defs / lambdas / comprehensions / loops with deliberate shadowing, parameter defaults, load() between documents, non-ASCII and astral characters before identifiers, LF/CRLF), issues gotoDefinition / hover / completion at every identifier use and at seeded odd positions, changes a document valid -> invalid -> valid, closes, re-opens, queries closed and never-opened documents, and shuts down; the simulated file system injects resolver errors and unreadable / missing loaded files. Every request must get exactly one in-order response and shutdown must terminate (no hang, no panic); every range in every response and diagnostic must denote valid UTF-16 positions of the text it is based on; go-to-definition must answer a binding of the same name in the scope from which the running program actually read the variable (each binding assigns a distinct tag, each use reports the tag it read); evaluation error spans must resolve to the line/character of the text.",
+            "Message loss/reordering and malformed JSON are not injected. Two recorded defects about astral characters (outgoing columns are character counts) are modelled and reported as KNOWN-FINDING.",
+            "DESIGN.md §6 C19"),
 }
 
 NOT_APPLICABLE = {
@@ -72,7 +77,6 @@ NOT_APPLICABLE = {
 
 # Properties planned (DESIGN.md) but whose check is not built yet: listed as not claimed *yet*.
 PENDING = {
-    "C19": "claimed in DESIGN.md but its check is not built yet in this commit; not claimed until it is",
 }
 
 def main():
